@@ -194,3 +194,23 @@ PROPS['C19'] = {
                    'run_script builds tape.contracts / tape.plugins from exactly the registry contents overlaid with '
                    'its arguments in fresh dicts, and leaves the caller\'s dictionaries unmodified (frame)',
 }
+
+
+PROPS['C12'] = {
+    'functions': ['parsing.decompile_script', 'classes.Tape.read', 'classes.Tape.has_terminated',
+                  'functions.bytes_to_int'] + ERRORS,
+    'select': [r'^parsing\.decompile_script/', r'^classes\.Tape\.(read|has_terminated)/', r'^functions\.bytes_to_int/'],
+    'trusted_base': TRUSTED_COMMON + ['text of the listing: str.join / bytes.hex / f-strings are uninterpreted (only '
+                                      '|hex(b)| = 2|b| is stated); no control flow of decompile_script depends on them'],
+    'assumptions': ASSUME_COMMON + ['a decompiler handler installed with add_opcode_parsing_handlers is arbitrary embedder '
+                                    'code: assumed to return (A-EMBED); it receives the tape and may move its pointer',
+                                    'round trip compile(decompile(b)) == b and "the listing names exactly the instructions '
+                                    'present": bounded stand-in against a reference encoder / lister (the compiler is '
+                                    'string code outside the solvers\' reach), labelled bounded',
+                                    'termination of the Python interpreter\'s own recursion (depth <= len(script)/4 '
+                                    'frames) is not modelled'],
+    'extra': ['props.bounded:c12_roundtrip'],
+    'explanation': 'decompile_script: every Tape.read call site proves size >= 0 (with Tape.read\'s postcondition '
+                   '"pointer never decreases": never reads backwards); the loop has the variant len(data) - pointer; '
+                   'every recursive call proves the measure len(script) strictly decreases; for all byte strings',
+}
